@@ -2623,6 +2623,45 @@ def split_named_expressions(func):
     return nf
 
 
+def split_boolop_assignments(func):
+    """`T = A and B` with A a membership / identity test over plain names and constants (it yields exactly True or False
+    and evaluating it has no effect) -> `if A: T = B  else: T = False`.  Exact; makes A visible as the guard of B."""
+    def simple_test(a):
+        return isinstance(a, ast.Compare) and len(a.ops) == 1 and isinstance(a.ops[0], (ast.In, ast.NotIn, ast.Is, ast.IsNot)) \
+            and all(isinstance(x, (ast.Name, ast.Constant)) for x in [a.left] + a.comparators)
+
+    def hit(st):
+        return isinstance(st, ast.Assign) and len(st.targets) == 1 and isinstance(st.value, ast.BoolOp) and isinstance(st.value.op, ast.And) and len(st.value.values) == 2 \
+            and simple_test(st.value.values[0]) and (isinstance(st.targets[0], ast.Name) or (isinstance(st.targets[0], ast.Attribute) and _simple(st.targets[0].value)))
+    if not any(hit(x) for x in walk_own(func.node)):
+        return func
+    node = _copy(func.node)
+
+    def block(body):
+        out = []
+        for st in body:
+            if hit(st):
+                a, b = st.value.values
+                yes = ast.copy_location(ast.Assign(targets=[_copy(st.targets[0])], value=b, type_comment=None), st)
+                no = ast.copy_location(ast.Assign(targets=[_copy(st.targets[0])], value=ast.copy_location(ast.Constant(value=False), st), type_comment=None), st)
+                out.append(ast.copy_location(ast.If(test=a, body=[yes], orelse=[no]), st))
+                continue
+            for fld in ("body", "orelse", "finalbody"):
+                sub = getattr(st, fld, None)
+                if isinstance(sub, list) and sub and isinstance(sub[0], ast.stmt) and not isinstance(st, (ast.FunctionDef, ast.AsyncFunctionDef, ast.ClassDef)):
+                    setattr(st, fld, block(sub))
+            if isinstance(st, ast.Try):
+                for h in st.handlers:
+                    h.body = block(h.body)
+            out.append(st)
+        return out
+    node.body = block(node.body)
+    ast.fix_missing_locations(node)
+    nf = Func(func.qual, node, func.module, func.cls, func.parent)
+    nf.inlined_from = list(getattr(func, "inlined_from", []))
+    return nf
+
+
 def drop_self_assignments(func):
     """`x = x` for a plain local name (left behind when an inlined helper returns its own parameter): no effect."""
     def is_self(st):
